@@ -103,9 +103,9 @@ CHECKS = {
     "C13": dict(
         engine="E2",
         category="exploration",
-        text="Seeded deterministic simulation (engine E2) of a real writer participant and a real reader participant, matched through real discovery, over a network with loss up to 20 %, duplication and jitter. The application is parked between readiness signals: it touches the reader, or re-polls a future, only after its waker was invoked or its mio source reported readable. Consumer forms: DataReader async sample stream, bare stream, no_key stream, SimpleDataReader stream (a task re-polled only when woken), mio-0.6 readiness (blocking shim Poll that drives the simulated world), mio-0.8 readiness (the real socketpair source under a real zero-timeout mio-0.8 Poll), each followed by take-until-empty; writer side: async_write against a command queue filled behind a stalled event loop, async_wait_for_acknowledgments (also asked for with a full command queue while the reader cannot be heard: it must stay pending), and wait_for_acknowledgments with a timeout (reader reachable or cut off). Oracle: 30 simulated seconds after the last write and fault every sample has reached the application, in order and unaltered; when not, one unconditional look tells a lost wake-up (the samples were there) from failed delivery; a pending future completes within 30 s once its condition holds; the synchronous wait never answers true without a possible acknowledgment, false not before its timeout, and not late.",
+        text="Seeded deterministic simulation (engine E2) of a real writer participant and a real reader participant, matched through real discovery, over a network with loss up to 20 %, duplication and jitter. The application is parked between readiness signals: it touches the reader, or re-polls a future, only after its waker was invoked or its mio source reported readable. Consumer forms: DataReader async sample stream, bare stream, no_key stream, SimpleDataReader stream (a task re-polled only when woken), mio-0.6 readiness (blocking shim Poll that drives the simulated world), mio-0.8 readiness (the real socketpair source under a real zero-timeout mio-0.8 Poll), each followed by take-until-empty; writer side: async_write against a command queue filled behind a stalled event loop, async_wait_for_acknowledgments (also asked for with a full command queue while the reader cannot be heard: it must stay pending), and wait_for_acknowledgments with a timeout (reader reachable or cut off). In a quarter of the reliable consumer runs the writer keeps only its last 1-2 samples and two chosen samples are lost in every transmission; in half of the reliable runs an epilogue follows in which a scripted peer speaks in the silent writer's name (a sample behind a hole, then a HEARTBEAT that closes the hole and announces one more). Oracle: at seed-chosen moments in the middle of the run, right after the parked application was served and before the world moves on, an unconditional look must find nothing (a wake-up that only later traffic makes up for is lost); 30 simulated seconds after the last write and fault every sample has reached the application, in order and unaltered; when not, one unconditional look tells a lost wake-up (the samples were there) from failed delivery; a pending future completes within 30 s once its condition holds; the synchronous wait never answers true without a possible acknowledgment, false not before its timeout, and not late.",
         design_ref="DESIGN.md section 5 C13, section 12",
-        note="Interleaving granularity is the event loop's poll turn (seed-chosen prefixes of its pending events), datagram delivery order and the time slices between application steps. The lock-release granularity named in the property's quantifier would need yield hooks inside RustDDS (planned hook H6) and was not built: a race that needs a preemption between two statements of one event-loop turn is outside what this check can reach. Found and fixed: AsyncWaitForAcknowledgments answered Pending without leaving a waker anywhere (8d2c580).",
+        note="Interleaving granularity is the event loop's poll turn (seed-chosen prefixes of its pending events), datagram delivery order and the time slices between application steps. The lock-release granularity named in the property's quantifier would need yield hooks inside RustDDS (planned hook H6) and was not built: a race that needs a preemption between two statements of one event-loop turn is outside what this check can reach. Found and fixed: AsyncWaitForAcknowledgments answered Pending without leaving a waker anywhere (8d2c580); the shared reliably-received mark (97abd8e); a sibling's DataReader not woken when the Reader that was behind caught up (0902b04).",
         technique=TECH + "; parked-application executor (re-poll only when woken / readable) with a bounded-liveness oracle and a lost-wake-up discriminator",
     ),
     "C17": dict(
